@@ -107,7 +107,28 @@ impl Pairing {
     }
 }
 
+/// copy under follow of a tree that itself contains links: the recorded C09 finding (what is behind such a link is
+/// copied under the target's path)
+fn follow_srclinks(state: &NTree, model: &Model, op: &Op) -> bool {
+    if let Op::CopyB(s, _, _, true) = op {
+        if let Some(Ok(sa)) = model.abs(s) {
+            let sroot = match state.nodes.get(&sa).map(|n| n.kind.clone()) {
+                Some(NKind::Link { target, .. }) => target,
+                _ => sa.clone(),
+            };
+            return state.nodes.contains_key(&sroot) && state.subtree(&sroot).iter().any(|k| matches!(state.nodes[k].kind, NKind::Link { .. }));
+        }
+    }
+    false
+}
+
 fn judge(p: &Pairing, state: &NTree, model: &Model, op: &Op, rm: &Res, rs: &Res, tm: &NTree, ts: &NTree, hist: &[String], rep: &mut Report) -> bool {
+    // the misplaced copies of the C09 finding meet different collisions on the two backends (a path through an existing
+    // link resolves on the real one only): such a call is compared only when both backends report success
+    if follow_srclinks(state, model, op) && (rm.is_err() || rs.is_err()) {
+        rep.count("not_compared:follow-copy-with-links-in-source-failed-on-a-backend", 1);
+        return false;
+    }
     let cls = arg_classes(state, model, op);
     let cfg = if p.unpriv { "uid1000" } else { "root" };
     rep.key_str(&format!("{}|{}|{}|{}", cfg, op.name(), cls, rs.class().split('(').next().unwrap_or("")));
@@ -123,7 +144,17 @@ fn judge(p: &Pairing, state: &NTree, model: &Model, op: &Op, rm: &Res, rs: &Res,
             ns = format!("Path(navigates to {:?})", nav(b));
         }
     }
-    let (cm, cs) = (comparable(tm), comparable(ts));
+    let (mut cm, mut cs) = (comparable(tm), comparable(ts));
+    // ... and then only on WHERE entries are: two misplaced copies that land on the same path overwrite each other in
+    // the order of the unordered traversal, so kinds-at-paths are compared, modes and contents are not
+    let srclinks = follow_srclinks(state, model, op);
+    if srclinks {
+        for m in [&mut cm, &mut cs] {
+            for v in m.values_mut() {
+                *v = v.split(' ').next().unwrap_or("").to_string();
+            }
+        }
+    }
     let mut ok = true;
     let wit = |what: &str, detail: String| {
         J::obj(vec![
@@ -345,15 +376,7 @@ fn in_domain_call(state: &NTree, model: &Model, op: &Op) -> bool {
             }
             // copy under follow of a tree that itself contains links: recorded finding of C09 (what is behind such
             // a link is copied under the target's path; the two backends then meet different collisions)
-            if matches!(op, Op::CopyB(_, _, _, true)) {
-                let sroot = match state.nodes.get(&sa).map(|n| n.kind.clone()) {
-                    Some(NKind::Link { target, .. }) => target,
-                    _ => sa.clone(),
-                };
-                if state.nodes.contains_key(&sroot) && state.subtree(&sroot).iter().any(|k| matches!(state.nodes[k].kind, NKind::Link { .. })) {
-                    return false;
-                }
-            }
+            // (judged all the same when both backends report success - see follow_srclinks in judge())
         }
     }
     // a relative symlink target is resolved against the link's directory
@@ -477,7 +500,7 @@ fn c02(ctx: &Ctx, rep: &mut Report) {
             // after a mutating call that both sides accepted, every path of the namespace is also observed through
             // the two APIs (what a user of either backend can see): a state that only shows through later calls -
             // left-over data, stale link information - is caught here and not only in multi-step histories
-            if ok && !op.is_query() && !rs.is_err() && in_domain_state(&unmap_ntree(&tm, &root)) {
+            if ok && !op.is_query() && !rs.is_err() && !follow_srclinks(state, &model, op) && in_domain_state(&unmap_ntree(&tm, &root)) {
                 // (only paths that do not pass through a symlink in the new state: the domain clause)
                 let post_v = unmap_ntree(&tm, &root);
                 let universe: Vec<String> = obs_paths.iter().filter(|p| !through_link(&post_v, Some(p.as_str()))).map(|p| map_path(p, &root)).collect();
